@@ -32,6 +32,9 @@ def make_config(seed, tier="quick"):
         # whatever the other tasks do while its sender waits for the transport)
         huge=random.Random(seed ^ 0xC1464).random() < 0.06,
         odd_headers=random.Random(seed ^ 0xC140D).random() < 0.2,
+        # the peer's Logon carries NextExpectedMsgSeqNum(789) (optional in FIX 4.4), here with a value BELOW what we
+        # have sent: nothing the peer says may rewind our outbound numbering
+        logon_789=random.Random(seed ^ 0xC1489).random() < 0.25,
         seed=seed,
         eut_role=r.choice(["acceptor", "initiator"]),
         hb=r.choice([1, 2, 3, 3, 30]),
@@ -69,6 +72,7 @@ class SendersSim(PeerSim):
         cfg = self.cfg
         self.peer.auto.update(logon=True, testreq=True, resend=True, logout=True)
         self.peer.next_out = cfg["eut_in"]
+        self.peer.logon_extra = [("789", "1")] if cfg.get("logon_789") else []
         self.task_busy = [False] * cfg["n_tasks"]
         self.task_done = [0] * cfg["n_tasks"]
         self.send_log = []  # dict(task, k, mid, status, exc)
@@ -83,7 +87,7 @@ class SendersSim(PeerSim):
     def peer_event(self, kind):
         if kind == "connected" and self.eut_role == "acceptor" and self.logon_pending:
             self.logon_pending = False
-            self.peer.send("A", [("98", "0"), ("108", self.cfg["hb"])], spec={"stim": "logon"})
+            self.peer.send("A", [("98", "0"), ("108", self.cfg["hb"])] + list(self.peer.logon_extra), spec={"stim": "logon"})
 
     def ep_event(self, ep, kind, *args):
         if kind == "on_disconnect":
